@@ -319,12 +319,13 @@ def gen_valid(rng):
         r = rng.random()
         if n > 1 and r < 0.35:
             ents = []
-            for _ in range(rng.choice([1, 1, 1, 2, 3])):
+            for _ in range(rng.choice([1, 1, 1, 2, 3, 3, 4])):
                 if rng.random() < 0.8:
                     j = rng.choice([j for j in range(n) if j != i]) if rng.random() < 0.95 else i
                     ents.append(names[j] + rng.choice(SUFFIXES))
                 else: ents.append(gen_real_source(rng, names))
-            sp['sources'] = rng.choice([', ', ',', ' , ']).join(ents)
+            # hand-written lists: the separator varies WITHIN one list ('a,b, c'), a trailing comma happens
+            sp['sources'] = ''.join(e + (rng.choice([', ', ',', ' , ', ',  ']) if k < len(ents) - 1 else rng.choice(['', '', '', ','])) for k, e in enumerate(ents))
         elif r < 0.55: sp['sources'] = gen_real_source(rng, names)
         elif r < 0.60: sp['sources'] = 'EMPTY'
         elif r < 0.63: sp['sources'] = 'BARE'
